@@ -270,11 +270,13 @@ _R9 = {
            "error only when execute() is on its way out; every place that opens the BackgroundThreadError envelope classifies its payload; a queue seen non-empty after a failed "
            "call is read; the wrapper's look at the failure state raises what it finds.",
     "C07": " The timer's heap layout agrees between writer and reader; a resubmission refreshes the state first; a running wait parks until its recorded end, not 'a second from now'.",
-    "C09": " Without a configured tolerance the first failure decides (comparisons against zero included); the pool size is evaluated, not just read; divisions by a count are guarded.",
+    "C09": " Without a configured tolerance the first failure decides (comparisons against zero included); the pool size is evaluated, not just read; divisions by a count are "
+           "guarded; a decided call does not join the pool (shutdown(wait=False), no pool as context manager).",
     "C10": " A completing context is registered where the ancestor walk looks, and so is every parent link; a read-only query that never raises is a violation, not an undecided.",
     "C12": " The overflow fallback is evaluated on the sign table of the factors; the recorded retry delay is the decided one.",
     "C15": " A dictionary is an envelope only with BOTH token keys.",
     "C17": " The initial replay status is evaluated on the five smallest histories; completed contexts count as completed work.",
+    "C18": " Every return site of the wrapper hands back a status dictionary (also the arms the trace model cannot reach).",
     "C20": " A key is withheld for absent values only (guard polarity); every timestamp conversion depends on its own presence only.",
 }
 for _pid, _extra in _R9.items():
